@@ -254,7 +254,21 @@ def gen_shape(tier):
             yield {"k": "sheetcase", "fmt": fmt, "case": case_kind}
 
 
-SPACE = GenSpace({"typed": gen_typed, "textnoise": gen_text_noise, "shape": gen_shape, "containers": gen_containers, "paths": gen_paths}, chunk=120)
+def gen_corpus(tier):
+    """the frozen corpus of realistic workbooks (xmc/corpus.py) written into every container by the harness's own writers"""
+    from xmc import corpus
+
+    for cid, name, wb in corpus.forms():
+        # the equivalent dict has every row's cells in column order, as a reader delivers them (the frozen JSON has them sorted)
+        wb = {s: [{h: r[h] for h in render.headers_of(wb, s) if h in r} for r in rows] for s, rows in wb.items()}
+        blank = any(not r for rows in wb.values() for r in rows)
+        for fmt in ("md", "csv", "xls", "xlsx"):
+            if blank and fmt in ("md", "csv"):
+                continue  # interior blank rows cannot be written in md / csv
+            yield {"k": "container", "base": f"corpus:{cid}", "wb": wb, "fmt": fmt, "ch": "bytes", "explicit": True}
+
+
+SPACE = GenSpace({"corpus": gen_corpus, "typed": gen_typed, "textnoise": gen_text_noise, "shape": gen_shape, "containers": gen_containers, "paths": gen_paths}, chunk=120)
 blocks = SPACE.blocks
 expand = SPACE.expand
 _BASES = {}
